@@ -200,6 +200,13 @@ ClassOf(kind) ==
     [] kind = "String"                                       -> {"string", "keyword"}
     [] OTHER                                                 -> {"keyword"}
 
+AllKinds == Operators \cup Punctuation \cup Literals \cup Trivia \cup
+            {"Identifier", "Comment", "Range", "RightArrow", "DirectAddress", "DirectAddressIncomplete",
+             "Retain", "Constant", "NonRetain", "String"}
+\* printed once so that the driver takes the classification from the specification, not from a private list
+ClassTable == [k \in AllKinds |-> ClassOf(k)]
+ASSUME PrintT(ToJson([R |-> "classes", table |-> ClassTable, keyword_default |-> ClassOf("If")]))
+
 (* Relative encoding of a sequence of <<line, col, len, cls>> and its inverse *)
 RECURSIVE Encode(_, _, _)
 Encode(ts, pl, pc) ==
@@ -238,6 +245,10 @@ SemTokOrdered == AtEnd => \A k \in 1..(Len(SemToks) - 1) :
 Replay == [R |-> "lex", text |-> text,
            toks |-> [k \in 1..Len(toks) |-> <<toks[k].k, toks[k].s, toks[k].e, toks[k].l,
                                                toks[k].cb, toks[k].cc, toks[k].cu>>],
-           semtok |-> Encode(SemToks, 0, 0)]
+           \* highlighted lexemes: line, column and length in the three units, kind
+           hl |-> [k \in 1..Len(Highlighted) |->
+                      LET t == Highlighted[k]
+                      IN  <<t.l, t.cb, t.cc, t.cu, t.e - t.s, t.n, SumU16(text, t.i, t.i + t.n - 1), t.k>>],
+           err |-> (\E k \in 1..Len(toks) : toks[k].k = "LexErr")]
 EmitReplay == (Emit /\ AtEnd) => PrintT(ToJson(Replay))
 =============================================================================
